@@ -60,7 +60,7 @@ def construct_cases(rng, n):
 
 
 def streams(rng, tier):
-    n = 300 if tier == "quick" else 4000
+    n = 500 if tier == "quick" else 4000
     return [("histories", [{"prog": H.gen_program(rng, rng.randint(8, 35), MIX)} for _ in range(n)]),
             ("rowappend", rowappend_cases(rng, 300 if tier == "quick" else 3000)),
             ("construct", construct_cases(rng, 150 if tier == "quick" else 1500))]
